@@ -15,12 +15,24 @@ package congestion
 //     acknowledged, for each profile.
 // Bounded-exhaustive over the small grids below. Added after the independently seeded changes
 // C11-7 and C12-7 (a wrapper struct embedding congestion.CongestionControl hid OnCongestionEventEx).
+//
+// C10, unit "installed" (TestVerifC10Installed): the same Brutal cases crossed with the process
+// environment answer HYSTERIA_BRUTAL_DEBUG unset / "true" at the moment the controller is built
+// (brutal.NewBrutalSender reads it through os.Getenv; bin/vcheck removes it from the environment of
+// the test binaries, so the harness sets and restores it around UseBrutal). Judged by C10's clause
+// "the rate reported to the application is the rate actually enforced": the window read back through
+// the connection corresponds to the negotiated rate itself when loss compensation is disabled, and to
+// at most rate/0.8 with the documented factor otherwise - whatever the diagnostics switch says.
+// Added after the independently seeded change C10-10 (with the debug variable set, a sender with
+// disableLossCompensation kept sampling and stored the 0.8 floor on the "ACK rate too low" path, so
+// it paced and sized its window at 1.25x the negotiated rate).
 
 import (
 	"encoding/json"
 	"fmt"
 	"math"
 	"net"
+	"os"
 	"testing"
 	"time"
 
@@ -31,10 +43,14 @@ import (
 	"verif.local/engine/vquic"
 )
 
+// the variable brutal.NewBrutalSender reads (brutal.debugEnv, unexported)
+const ccInstBrutalDebugEnv = "HYSTERIA_BRUTAL_DEBUG"
+
 type ccInstCase struct {
 	Kind    string `json:"kind"` // brutal | bbr
 	Rate    uint64 `json:"rate,omitempty"`
 	NoComp  bool   `json:"disable_loss_compensation,omitempty"`
+	Debug   bool   `json:"brutal_debug_env,omitempty"` // HYSTERIA_BRUTAL_DEBUG=true while the controller is built (C10)
 	Acked   int    `json:"acked,omitempty"`
 	Lost    int    `json:"lost,omitempty"`
 	Batches int    `json:"batches,omitempty"`
@@ -62,7 +78,19 @@ func ccInstRunInner(c *ccInstCase) string {
 	now := monotime.Now()
 	switch c.Kind {
 	case "brutal":
-		UseBrutal(conn, c.Rate, c.NoComp)
+		if c.Debug {
+			// environment answer: the diagnostics switch is read once, when the sender is built
+			old, had := os.LookupEnv(ccInstBrutalDebugEnv)
+			os.Setenv(ccInstBrutalDebugEnv, "true")
+			UseBrutal(conn, c.Rate, c.NoComp)
+			if had {
+				os.Setenv(ccInstBrutalDebugEnv, old)
+			} else {
+				os.Unsetenv(ccInstBrutalDebugEnv)
+			}
+		} else {
+			UseBrutal(conn, c.Rate, c.NoComp)
+		}
 		cc := conn.Congestion()
 		if cc == nil {
 			return "UseBrutal installed no controller on the connection"
@@ -99,6 +127,10 @@ func ccInstRunInner(c *ccInstCase) string {
 			want = math.Max(0.8, float64(c.Acked)/float64(c.Acked+c.Lost))
 		}
 		got := base / float64(cc.GetCongestionWindow())
+		if c.Debug && math.Abs(got-want) > 0.011 {
+			return fmt.Sprintf("Brutal installed with UseBrutal(rate=%d, disableLossCompensation=%v) while HYSTERIA_BRUTAL_DEBUG=true: after the connection reported %d acknowledged and %d lost packets within one second, the window %d corresponds to %.3f x the negotiated rate (factor %.3f), expected %.3f x (factor %.3f): the diagnostics switch changes the rate enforced, which is no longer the rate negotiated and reported to the application",
+				c.Rate, c.NoComp, c.Acked, c.Lost, cc.GetCongestionWindow(), 1/got, got, 1/want, want)
+		}
 		if math.Abs(got-want) > 0.011 {
 			return fmt.Sprintf("Brutal installed with UseBrutal(rate=%d, disableLossCompensation=%v): after the connection reported %d acknowledged and %d lost packets within one second, the window %d corresponds to a loss-compensation factor %.3f, expected %.3f (the controller does not see the connection's acknowledgements and losses, or computes another factor)",
 				c.Rate, c.NoComp, c.Acked, c.Lost, cc.GetCongestionWindow(), got, want)
@@ -167,14 +199,18 @@ func ccInstEnumerate(prop string) func(sh *evidence.Shard) {
 			}
 			p.Evaluations++
 			clause := ccInstRun(&c)
-			p.Class(c.Kind, c.Rate, c.NoComp, c.Acked, c.Lost, c.Batches, c.Profile, c.Via, c.RTTms, clause == "")
+			p.Class(c.Kind, c.Rate, c.NoComp, c.Acked, c.Lost, c.Batches, c.Profile, c.Via, c.RTTms, c.Debug, clause == "")
 			if clause != "" {
 				cc := c
+				dbg := ""
+				if c.Debug {
+					dbg = ",brutal_debug_env=true"
+				}
 				short := clause
 				if len(short) > 60 {
 					short = short[:60]
 				}
-				sh.Violate(p.Name, fmt.Sprintf("installed/%s/%s/rate=%d,nocomp=%v,acked=%d,lost=%d,profile=%s,via=%s", c.Kind, short, c.Rate, c.NoComp, c.Acked, c.Lost, c.Profile, c.Via), clause, &cc)
+				sh.Violate(p.Name, fmt.Sprintf("installed/%s/%s/rate=%d,nocomp=%v,acked=%d,lost=%d,profile=%s,via=%s%s", c.Kind, short, c.Rate, c.NoComp, c.Acked, c.Lost, c.Profile, c.Via, dbg), clause, &cc)
 			}
 			return sh.NViolations() < 6
 		}
@@ -190,6 +226,35 @@ func ccInstEnumerate(prop string) func(sh *evidence.Shard) {
 							for _, rtt := range []int{50, 200} {
 								if !run(ccInstCase{Kind: "brutal", Rate: r, NoComp: nc, Acked: s[0], Lost: s[1], Batches: b, RTTms: rtt}) {
 									return
+								}
+							}
+						}
+					}
+				}
+			}
+			return
+		}
+		if prop == "C10" {
+			// C10: the negotiated rate as enforced, with the diagnostics switch off and on. The debug
+			// lines go to stdout (at most one per two seconds of the clock), so the grid is kept small.
+			// Added after the independently seeded change C10-10 (see the head of this file).
+			rates := []uint64{1 << 20, 12500000}
+			samples := [][2]int{{0, 0}, {40, 9}, {40, 10}, {50, 0}, {90, 10}, {80, 20}, {79, 21}, {60, 40}, {0, 60}, {1000, 251}}
+			if env.Thorough() {
+				rates = []uint64{1 << 20, 12500000, 1250000000}
+				samples = [][2]int{{0, 0}, {49, 0}, {40, 9}, {40, 10}, {50, 0}, {100, 0}, {99, 1}, {90, 10}, {80, 20}, {79, 21}, {60, 40}, {10, 90}, {0, 60}, {1000, 250}, {1000, 251}}
+			}
+			p.Alphabet = map[string]any{"installed_with": "congestion.UseBrutal on a connection that dispatches acks like quic-go's sentPacketHandler", "rate": rates, "disable_loss_compensation": []bool{false, true},
+				"env HYSTERIA_BRUTAL_DEBUG while the controller is built": []string{"(unset)", "true"}, "(acked,lost) within one second": samples, "batches": []int{1, 4}, "rtt_ms": []int{50, 200}}
+			for _, r := range rates {
+				for _, nc := range []bool{false, true} {
+					for _, dbg := range []bool{false, true} {
+						for _, s := range samples {
+							for _, b := range []int{1, 4} {
+								for _, rtt := range []int{50, 200} {
+									if !run(ccInstCase{Kind: "brutal", Rate: r, NoComp: nc, Debug: dbg, Acked: s[0], Lost: s[1], Batches: b, RTTms: rtt}) {
+										return
+									}
 								}
 							}
 						}
@@ -227,5 +292,6 @@ func ccInstMain(t *testing.T, prop string) {
 	}})
 }
 
+func TestVerifC10Installed(t *testing.T) { ccInstMain(t, "C10") }
 func TestVerifC11Installed(t *testing.T) { ccInstMain(t, "C11") }
 func TestVerifC12Installed(t *testing.T) { ccInstMain(t, "C12") }
